@@ -128,6 +128,7 @@ extern "C" __attribute__((noinline)) void h_toy() {
     if (!xWasValid) verif_check(r > 0, 15);                            // a candidate already reported invalid is refused
   }
   checkApplied(w, 200);
+#ifndef NOSTEP3
   // ---- step 3 (C20): any block reporting full validity can be activated from the current state
   uint8_t Y = (uint8_t)verif_choice(2, NED);
   auto* yi = t.ed(Y);
@@ -139,6 +140,7 @@ extern "C" __attribute__((noinline)) void h_toy() {
     checkApplied(w, 300);
     verif_cover(8);
   }
+#endif
   // ---- step 4 (C01): going back to T0 reproduces the state recorded after step 1
   if (ok0) {
     ValidationState s4;
